@@ -44,14 +44,17 @@ func runCase(c Case) *hx.Failure {
 		// still must not crash the interpreter (C06 owns that verdict; here only counted)
 		return nil
 	}
-	if want.Err != nil {
+	if want[0].Err != nil {
 		classes = append(classes, "outcome.error-escapes")
 	} else {
 		classes = append(classes, "outcome.completes")
 	}
+	if len(want) > 1 {
+		classes = append(classes, "outcome.several-acceptable")
+	}
 	hx.E.Case(nt, src, classes...)
 	if nt {
-		hx.E.Sample(src, map[string]interface{}{"src": src, "expect_trace": progcheck.Key(want)})
+		hx.E.Sample(src, map[string]interface{}{"src": src, "expect_trace": progcheck.Key(want[0])})
 	}
 	res := erun.Run(src, erun.Options{})
 	return progcheck.Compare(src, want, res)
